@@ -98,12 +98,50 @@ MALFORMED = ['', ' ', '<', '<mos>', '<mos><roCreate></mos>', 'plain text', '<mos
              '<?xml version="1.0"?>', '<mos><roCreate/></mos><mos/>', '\x00', '<mos attr=1/>']
 
 
+def text_variants(rng, text):
+    """character-level variants of a well-formed document: some stay well-formed (white space and comments around the
+    root, an XML declaration at the very start), most do not (anything before a declaration, truncation, a deleted or
+    doubled character, content after the root, control characters).  Which is which is decided by expat in run()."""
+    decl = rng.choice(['<?xml version="1.0"?>', '<?xml version="1.0" encoding="UTF-8"?>', "<?xml version='1.0' encoding='utf-8' standalone='yes'?>"])
+    ws = rng.choice(['\n', ' ', '\r\n', '\t', '\n\n  '])
+    r = rng.randrange(14)
+    if r == 0:
+        return ws + text
+    if r == 1:
+        return text + ws
+    if r == 2:
+        return decl + text
+    if r == 3:
+        return ws + decl + text                      # white space before the declaration: not well-formed
+    if r == 4:
+        return decl + ws + text + ws
+    if r == 5:
+        return '<!-- c -->' + decl + text            # a comment before the declaration: not well-formed
+    if r == 6:
+        return decl + '<!-- c -->' + text + '<!-- d -->'
+    if r == 7:
+        return text[:rng.randrange(1, len(text))]    # truncated
+    if r == 8:
+        k = rng.randrange(len(text))
+        return text[:k] + text[k + 1:]               # one character lost
+    if r == 9:
+        k = rng.randrange(len(text))
+        return text[:k] + rng.choice(['<', '>', '&', '"', '\x01', '/', '</mos>', ']]>']) + text[k:]
+    if r == 10:
+        return text + rng.choice(['x', '<mos/>', '&amp;', decl])
+    if r == 11:
+        return rng.choice(['x', '\ufeff', '&#10;', '<?xml?>']) + text
+    if r == 12:
+        return decl + decl + text
+    return text.replace('</', '< /', 1) if rng.random() < 0.5 else text.replace('>', ' >', 1)
+
+
 class Check:
     pid = 'C08'
     rule = ('15 message tags x 4 payloads x 4 envelopes; empty / text-only / pretty-printed message elements; pairs of '
             'message elements in both document orders; nested message elements; roElementAction with 9 operation values '
             'x 11 element_target shapes x 13 element_source shapes (blank, nested and several ID tags included); non-MOS XML; a completed running order; seeded random '
-            'documents; 12 malformed texts. Each document is classified from str, bytes and a file (UTF-8, and with a declaration in UTF-16 and ISO-8859-1 where representable), in interpreters '
+            'documents; 12 fixed malformed texts and character-level variants of the documents (white space / comments / an XML declaration around the root, text before a declaration, truncation, lost / inserted characters, content after the root), sorted into well-formed and malformed by expat. Each document is classified from str, bytes and a file (UTF-8, and with a declaration in UTF-16 and ISO-8859-1 where representable), in interpreters '
             'started with default flags and with -W error. distinct by (kind, tag/operation, outcome)')
 
     def matches_known(self, k, v):
@@ -120,6 +158,20 @@ class Check:
         for _ in range(400 if tier == 'quick' else 4000):
             d = rng.choice(base)
             docs.append({'text': gens.mutate_doc(rng, d['text'], None, n=rng.randrange(1, 4)), 'meta': dict(d['meta'], kind='fuzzed')})
+        # character-level variants: well-formed ones join the documents, the others the malformed stream
+        import xml.etree.ElementTree as ET
+        malformed = list(MALFORMED)
+        for _ in range(300 if tier == 'quick' else 3000):
+            d = rng.choice(base)
+            v = text_variants(rng, d['text'])
+            try:
+                ET.fromstring(v)
+                docs.append({'text': v, 'meta': dict(d['meta'], kind='text-variant')})
+            except ET.ParseError:
+                if v not in malformed:
+                    malformed.append(v)
+            except ValueError:
+                pass                                 # NUL characters: rejected before expat sees them
         texts = [d['text'] for d in docs]
         model = engine.classify_cases(texts)
         default = run_sub([], 'classify', texts)
@@ -144,8 +196,8 @@ class Check:
                             'impl': list(io), 'expected': list(mo)})
                 dis.append({'case': {'kind': 'classify', 'text': d['text']}, 'impl': list(io), 'model': list(mo), 'explained': True})
         # malformed XML: MosInvalidXML from every source, under both configurations
-        for flags, res in (([], run_sub([], 'classify', MALFORMED)), (['-W', 'error'], run_sub(['-W', 'error'], 'classify', MALFORMED))):
-            for t, row in zip(MALFORMED, res):
+        for flags, res in (([], run_sub([], 'classify', malformed)), (['-W', 'error'], run_sub(['-W', 'error'], 'classify', malformed))):
+            for t, row in zip(malformed, res):
                 for how in row:
                     if row[how] != ['err', 'MosInvalidXML']:
                         vio.append({'what': 'malformed XML from %s %s: %r' % (how, flags, row[how]),
@@ -159,11 +211,11 @@ class Check:
             dis.append({'case': {'kind': 'translator', 'stage': gt['stage'], 'detail': gt['detail']},
                         'impl': 'classification tables in mostypes.py', 'model': 'tag_class_map / ea_table / base_tag_name of Classify.v (work/GenTables.v does not check)',
                         'explained': bool(vio)})
-        n = sum(len(a) + len(b) for a, b in zip(default, werror)) + len(MALFORMED) * 6
+        n = sum(len(a) + len(b) for a, b in zip(default, werror)) + len(malformed) * 6
         samples = [{'text': d['text'], 'model': list(mo)} for d, mo in list(zip(docs, model))[::max(1, len(docs) // 3)][:3]]
         return {'evaluations': n, 'distinct': len(sigs), 'rule': self.rule, 'samples': samples, 'distribution': dist,
                 'disagreements': dis, 'violations': vio,
-                'extra': {'translated_tables': gt, 'documents': len(docs), 'malformed_texts': len(MALFORMED), 'configurations': ['default', '-W error'],
+                'extra': {'translated_tables': gt, 'documents': len(docs), 'malformed_texts': len(malformed), 'configurations': ['default', '-W error'],
                           'sources': ['str', 'bytes', 'file', 'bytes / file in UTF-16 and ISO-8859-1 with declaration']}}
 
     def replay(self, rep):
